@@ -233,6 +233,11 @@ def gen_map(rng, hostile=0.0, chronological=True, mode=None, version=None, tshif
                  lambda: gen_colours(rng, hostile), lambda: gen_timing(rng, mode, hostile, 20000, chronological, tshift + 30000, integer_times)]
         for _ in range(rng.randint(1, 3)):
             secs.insert(rng.randint(1, len(secs)) if secs else 0, rng.choice(again)())
+    if rng.random() < 0.12:
+        # sections that every provided decoder ignores, holding lines that would be records elsewhere
+        ign = [rng.choice(["[Variables]", "[CatchTheBeat]", "[Mania]"])]
+        ign += rng.choice([["$var=320", "$t=1000"], ["Mode: 3", "Title:ignored", "0,0,1000,1,0,0:0:0:0:"], ["Combo1 : 1,2,3", "2,100,900", "0,333,4,1,0,100,1,0"]])
+        secs.insert(rng.randint(0, len(secs)), ign)
     if secs and alien and rng.random() < 0.15:
         # records in the "wrong" section: another section's lines, and keys spelled with their section's name in front
         # (legacy spellings such as `EditorBookmarks` / `EditorDistanceSpacing` under [General])
